@@ -85,4 +85,10 @@ META = {
   text="Generated search over integration sets and chains: DDL and migrations are executed by a Postgres stand-in that enforces column existence and unique indexes, real emitted rows are copied in, and a replay of the same blocks must hit the generated unique key.",
   note="Trusted: fakepg DDL semantics (create table/index if not exists, add column if not exists, information_schema diff, unique enforcement with NULLs distinct).",
  ),
+ "C07": dict(
+  design_ref="DESIGN.md §5 C07",
+  technique="exhaustive single-corruption enumeration (operator x request x position) over every data plan + rapid combined corruptions; oracle judged against the responses as served; native fuzz over operator/position bytes (thorough)",
+  text="All single corruptions from the property's list are enumerated for small ranges on all eleven data plans, combinations are sampled; the oracle decides from the served (post-corruption) responses whether an error is mandatory and otherwise checks numbering, linkage and the exact attachment relation.",
+  note="Trusted: the harness's own parsing of the served JSON, sim node rendering. Client built with the 'nocache' URL switch so every call reaches the script.",
+ ),
 }
